@@ -129,6 +129,44 @@ pub fn programs() -> Vec<(&'static str, String, Vec<Emit>, bool)> {
         ints(&[1]),
         false,
     ));
+    // several readers on one channel (reads are ordered by a second channel, so the model's answer is unique):
+    // every written value is received by exactly one read, in writing order, whichever handle reads
+    v.push((
+        "two-handles-helper-reads-one-then-finishes",
+        "let c: channel<int> = channel()\nlet done: channel<int> = channel()\nc.write(1)\nc.write(2)\nc.write(3)\ntask {\n  done.write(c.read())\n}\nvh_emit_int(done.read())\nc.write(4)\nvh_emit_int(c.read())\nvh_emit_int(c.read())\nvh_emit_int(c.read())\n".into(),
+        ints(&[1, 2, 3, 4]),
+        false,
+    ));
+    v.push((
+        "two-handles-heap-payloads",
+        "let c: channel<array<int>> = channel()\nlet done: channel<array<int>> = channel()\nc.write([1])\nc.write([2])\nc.write([3])\ntask {\n  let r = c.read()\n  r.push(9)\n  done.write(r)\n}\nlet f = done.read()\nvh_emit_int(f[0])\nvh_emit_int(f[1])\nlet g = c.read()\nvh_emit_int(g[0])\nvh_emit_int(g.len())\nlet h = c.read()\nvh_emit_int(h[0])\n".into(),
+        ints(&[1, 9, 2, 1, 3]),
+        false,
+    ));
+    v.push((
+        "three-handles-in-turn",
+        "let c: channel<int> = channel()\nlet done: channel<int> = channel()\nc.write(1)\nc.write(2)\nc.write(3)\nc.write(4)\ntask {\n  done.write(c.read())\n}\nvh_emit_int(done.read())\ntask {\n  done.write(c.read())\n}\nvh_emit_int(done.read())\nvh_emit_int(c.read())\nvh_emit_int(c.read())\n".into(),
+        ints(&[1, 2, 3, 4]),
+        false,
+    ));
+    v.push((
+        "reader-task-takes-two-main-takes-the-rest",
+        "let c: channel<int> = channel()\nlet done: channel<int> = channel()\nc.write(1)\nc.write(2)\nc.write(3)\nc.write(4)\ntask {\n  let a = c.read()\n  let b = c.read()\n  done.write(a * 10 + b)\n}\nvh_emit_int(done.read())\nvh_emit_int(c.read())\nvh_emit_int(c.read())\n".into(),
+        ints(&[12, 3, 4]),
+        false,
+    ));
+    v.push((
+        "handle-received-over-a-channel-reads-after-the-owner",
+        "let c: channel<int> = channel()\nlet cc: channel<channel<int>> = channel()\nlet done: channel<int> = channel()\nc.write(1)\nc.write(2)\nc.write(3)\nvh_emit_int(c.read())\ncc.write(c)\ntask {\n  let c2 = cc.read()\n  done.write(c2.read())\n}\nvh_emit_int(done.read())\nvh_emit_int(c.read())\n".into(),
+        ints(&[1, 2, 3]),
+        false,
+    ));
+    v.push((
+        "main-reads-first-then-a-task-then-main",
+        "let c: channel<int> = channel()\nlet done: channel<int> = channel()\ntask {\n  c.write(1)\n  c.write(2)\n  c.write(3)\n  c.write(4)\n}\nvh_emit_int(c.read())\ntask {\n  done.write(c.read())\n}\nvh_emit_int(done.read())\nvh_emit_int(c.read())\nvh_emit_int(c.read())\n".into(),
+        ints(&[1, 2, 3, 4]),
+        true,
+    ));
     v
 }
 
